@@ -207,7 +207,8 @@ level, plus for every live node the messages pending from its boss + 2).  Along 
     deliveries happened) EVERY node is gone: the server stopped and closed all clients
     (`ShutDone`), every manager stopped, every worker killed itself.
 So the number of critical deliveries any schedule can take is bounded by (a), and by (b) a
-schedule that has not finished the shutdown always has one more to take. -/
+schedule that has not finished the shutdown always has one more to take.  (`T = 0` is sufficient,
+not necessary: a SHUTDOWN written to a boss that is already gone stays in the pipe forever.) -/
 theorem C14_runtime_stops {t : Topo} (wf : t.WF) {s sf : State} (hs : Reach t s) {d : Nat}
     (hd0 : d ≠ 0) (hdn : d < t.n) (hg : s.gone d = true) (ls : List Label) {c g : Nat}
     (h : runCountAll t d s ls = some (sf, c, g)) :
